@@ -5112,6 +5112,10 @@ class DfaCompileCtx:
             if len(transition.target.transitions) != 1 or DFTransition.Else not in transition.target.transitions[0].on_values:
                 continue
 
+            # An accepting state is not a dummy: reaching it is what makes the parser report DONE.
+            if transition.target in self.dfa.accepting_states:
+                continue
+
             to_replace = transition.target.transitions[0]
 
             if not to_replace.is_fallthrough:
